@@ -143,15 +143,22 @@ func TestC16_P_WriteOrderAndFaults(t *testing.T) {
 			if kind == "quick" {
 				return // the quick builder's documented behaviour on store errors is to panic: ordering only
 			}
+			// the value of the injected error: plain, or wrapping a well-known value (io.EOF, fs.ErrNotExist, ...) that
+			// builder code may give a meaning of its own in other places - a storage failure must stay a failure
+			faultKind := genFaultKind(t)
 			for k := 1; k <= n; k++ {
-				for stage := 0; stage < 3; stage++ {
+				for stage := 0; stage < 4; stage++ {
 					st := NewStore()
-					stageName := []string{"open", "write", "commit"}[stage]
+					st.FaultKind = faultKind
+					stageName := []string{"open", "write", "commit", "write-partial"}[stage]
 					switch stage {
 					case 0:
 						st.FailOpenAt = k
 					case 1:
 						st.FailWriteAt = k
+					case 3:
+						st.FailWriteAt = k
+						st.PartialWrite = true
 					default:
 						st.FailCommitAt = k
 					}
@@ -173,10 +180,10 @@ func TestC16_P_WriteOrderAndFaults(t *testing.T) {
 					} else if k == 1 {
 						pos = "first"
 					}
-					ev.Case(fmt.Sprintf("%s blocks=%s %s@%s", kind, bucket(n), stageName, pos), true, "fault:"+stageName, "faultpos:"+pos)
+					ev.Case(fmt.Sprintf("%s blocks=%s %s@%s %s", kind, bucket(n), stageName, pos, faultKinds[faultKind].Name), true, "fault:"+stageName, "faultpos:"+pos, "faultvalue:"+faultKinds[faultKind].Name)
 				}
 			}
-			ev.Sample(map[string]any{"build": b.desc, "write_opens": n, "faulted_builds": 3 * n, "levels": levels})
+			ev.Sample(map[string]any{"build": b.desc, "write_opens": n, "faulted_builds": 4 * n, "levels": levels})
 		}
 		if kind == "recursive" {
 			if err := withFSTree(fsroot, body); err != nil {
